@@ -49,6 +49,7 @@ func (c *matcherCompiler) compileForStmt(v reflect.Value) Matcher {
 	}
 	dotPos := stmt.Cond.Pos()
 	c.dots = append(c.dots, dotPos)
+	c.dotKinds = withDotKind(c.dotKinds, dotPos, goast.ForStmtPtrType)
 	return ForDotsMatcher{
 		Dots: dotPos,
 		Body: c.compile(reflect.ValueOf(stmt.Body)),
@@ -118,6 +119,7 @@ func (c *replacerCompiler) compileForStmt(v reflect.Value) Replacer {
 	}
 	dotPos := stmt.Cond.Pos()
 	c.dots = append(c.dots, dotPos)
+	c.dotKinds = withDotKind(c.dotKinds, dotPos, goast.ForStmtPtrType)
 	return ForDotsReplacer{
 		Dots:     dotPos,
 		Body:     c.compile(reflect.ValueOf(stmt.Body)),
